@@ -218,7 +218,7 @@ def _bh_to_vec(it, key, raw, args):
     return VecV([Cell(clone(v.fields[0].v))])
 
 
-@stub('blockhash_from', '<BlockHash as From>::from')
+@stub('blockhash_from', '<BlockHash as From>::from', '<BlockHash as Into>::into')
 def _bh_from(it, key, raw, args):
     """BlockHash::from(bitcoin hash / Vec<u8>) is the identity on names"""
     v = args[0]
